@@ -12,6 +12,8 @@ CONSTANTS
   FollowRetries = TRUE
   FollowAppend = TRUE
   ResyncChecksRound = TRUE
+  ResyncDeletesFirst = FALSE
+  Aborts = FALSE
   PinsOperatorHash = FALSE
   MaxAgg = 0
   QCap = 1
